@@ -10,6 +10,8 @@ import Driver.C18
 import Driver.C19
 import Driver.C07
 import Driver.C08
+import Driver.C06
+import Driver.C20
 
 open Driver
 
@@ -22,6 +24,8 @@ def dispatch (prop : String) (toks : List String) : String :=
   | "C19" => Driver.C19.handle toks
   | "C07" => Driver.C07.handle toks
   | "C08" => Driver.C08.handle toks
+  | "C06" => Driver.C06.handle toks
+  | "C20" => Driver.C20.handle toks
   | _ => "bad-prop"
 
 partial def loop (hin hout : IO.FS.Stream) : IO Unit := do
